@@ -55,7 +55,9 @@ fn read_strategy(max_copies: u8) -> BoxedStrategy<Read> {
 }
 
 fn case_strategy() -> BoxedStrategy<Case> {
-    (gen::k_strategy(), 1u16..=6)
+    // min-count 1..6 and min-qual 0..40, with extra weight on the documented defaults (5 and 20), which the
+    // CLI driver then leaves out in a third of the calls
+    (gen::k_strategy(), prop_oneof![6 => 1u16..=6, 1 => Just(5u16)])
         .prop_flat_map(|(k, min_count)| {
             (
                 Just(k),
@@ -65,7 +67,7 @@ fn case_strategy() -> BoxedStrategy<Case> {
                 prop_oneof![4 => Just(None), 1 => (proptest::collection::vec(0u8..4, 1..6), 0u8..4).prop_map(Some)],
                 proptest::collection::vec(read_strategy(min_count as u8 + 1), 2..24),
                 any::<u16>(),
-                prop_oneof![1 => Just(0u8), 4 => 1u8..=40],
+                prop_oneof![1 => Just(0u8), 4 => 1u8..=40, 1 => Just(20u8)],
                 0u8..3,
             )
         })
